@@ -152,7 +152,9 @@ RULE = ("50% REST timeout cases: handler scripts of 0-6 actions (Set/Add/Del hea
         "engine chain); a client that cancels over a real connection while its handler is parked behind the FULL engine chain "
         "(499 observed in front of the chain, at the cancel); MaxConns(n) and BreakerHandler installed through Server.Use / "
         "WithMiddleware / WithMiddlewares + ToMiddleware (admission schedules over real HTTP; 60 failing requests in a row); "
-        "in an own driver process with Prometheus ENABLED (prometheus.StartAgent): raw request paths that are not valid UTF-8 once "
+        "the three reject streams (panic -> 500, Content-Length > MaxBytes -> 413, MaxConns saturated -> 503) on requests whose "
+        "declared body has not arrived (gated reader: every Read blocks until the case is over; a guard that reads the body hangs "
+        "and is reported); in an own driver process with Prometheus ENABLED (prometheus.StartAgent): raw request paths that are not valid UTF-8 once "
         "percent-decoded (/user/%ff, /user/a%c0%afb, two variables) on routes with path variables, and ONE load case: 9000 "
         "requests through one route while stat.SetReportWriter's writer blocks; ServerConfig.Timeout 50/150/1000 ms with a "
         "handler overrunning by 2 s (ctx.Deadline() distance seen by the handler and reply time checked); "
@@ -646,6 +648,26 @@ def plumbing_matrix(rng):
     return out
 
 
+def gated_body_matrix(rng):
+    """the three reject streams on requests whose declared body has not arrived (every Read blocks): the guards must answer at once"""
+    out = []
+    none = {"mode": "none", "k": 0, "cause": "none"}
+    for pv in ("string", "nil", "nilmap"):
+        for acts in ([{"a": "panic", "pv": pv}], [{"a": "set", "k": 0, "v": 1}, {"a": "w", "b": "x"}, {"a": "panic", "pv": pv}]):
+            out.append({"kind": "tw", "recover": True, "bypass": rng.choice(["none", "none", "zero"]), "maxbytes": rng.choice([0, 100]),
+                        "clen": 5, "rh0": [], "gated_body": True, "acts": [dict(a) for a in acts], "fire": dict(none)})
+    for m in (1, 10, 100):
+        for d in (1, 1000):
+            out.append({"kind": "tw", "recover": rng.random() < 0.8, "bypass": "none", "maxbytes": m, "clen": m + d, "rh0": [],
+                        "gated_body": True, "acts": [{"a": "w", "b": "x"}], "fire": dict(none)})
+    for n in (1, 2):
+        for inner in (False, True):
+            ops = [{"op": "enter", "i": i} for i in range(n + 2)]
+            ops += [{"op": "leave", "i": 0, "panic": True}, {"op": "enter", "i": n + 2}, {"op": "enter", "i": n + 3}]
+            out.append({"kind": "conns", "n": n, "reqs": n + 4, "inner": inner, "gated_body": True, "ops": ops})
+    return out
+
+
 def prom_matrix(rng):
     """own driver process with Prometheus metrics ENABLED: request paths that are not valid UTF-8 once percent-decoded on
     routes with path variables (metric labels must come from the route pattern), and the stalled-report-writer load case"""
@@ -727,11 +749,14 @@ def generate(rng, tier, n):
             cases.append(gen_rmulti(rng))
     cases += value_matrix(e2e=tier in ("thorough", "search"))
     cases += config_matrix(rng) + rsrv_matrix(rng) + status_matrix(rng) + panic_chain_matrix(rng) + g_matrix(rng)
-    cases += hdr_matrix(rng) + cancel_matrix(rng) + plumbing_matrix(rng) + prom_matrix(rng)
+    cases += hdr_matrix(rng) + cancel_matrix(rng) + plumbing_matrix(rng) + prom_matrix(rng) + gated_body_matrix(rng)
     for c in cases:             # a small adversarial-header dimension on the random error-path cases too
         if "hdrs" not in c and rng.random() < 0.3 and (
                 (c.get("kind") == "tw" and (_has_panic(c) or 0 < c["maxbytes"] < c["clen"])) or c.get("kind") == "conns"):
             c["hdrs"] = gen_hdrs(rng)
+        if "gated_body" not in c and rng.random() < 0.25 and (
+                (c.get("kind") == "tw" and c["clen"] > 0 and (_has_panic(c) or 0 < c["maxbytes"] < c["clen"])) or c.get("kind") == "conns"):
+            c["gated_body"] = True
     cases += [gen_g(rng) for _ in range(120 if tier == "thorough" else 12)]
     extra = 60 if tier == "thorough" else 8
     cases += [gen_e2ec(rng) for _ in range(extra)] + [gen_rsrv(rng) for _ in range(2 * extra)]
@@ -1080,6 +1105,8 @@ def bucket(case, obs):
     out = ["kind:" + k]
     for h in case.get("hdrs") or []:
         out.append("hdr:%s=%s" % (h["n"], h["kind"]))
+    if case.get("gated_body"):
+        out.append("gated-body:" + k)
     if k == "e2el":
         out.append("e2el.requests=%s" % case["total"])
         return out
